@@ -287,3 +287,30 @@ pub fn c07_lost_message_is_resent_unchanged() {
     std::mem::forget(b);
     witness!();
 }
+
+/// a lost message that carried a confirmation is re-sent UNCHANGED: same id, same confirmation, same proposal; the own
+/// id does not move and nothing is installed (the key was installed for receiving under that id when it was first sent)
+#[cfg_attr(kani, kani::proof, kani::unwind(36))]
+pub fn c07_resend_with_confirmation_keeps_id_and_content() {
+    let c: [u8; 32] = kani::any();
+    let id: u64 = kani::any();
+    kani::assume(id >= 2 && id < u64::MAX - 4);
+    let (private_key, public_key) = RotationState::create_key();
+    let mut pb = [0u8; 32];
+    pb.copy_from_slice(&public_key.bytes()[..32]);
+    let mut s = RotationState { confirmed: Some((key_of(&c, 32), id)), pending: None, proposed: Some(private_key), message_id: id, timeout: true };
+    let mut out = MsgBuffer::new(8);
+    let r = s.cycle(&mut out);
+    assert!(r.is_none());
+    let m = msg_of(&mut out, true);
+    assert!(m.message_id == id);
+    assert!(same_key(m.confirm.as_ref().unwrap(), &c, 32));
+    assert!(same_key(&m.propose, &pb, 32));
+    assert!(s.message_id == id && s.proposed.is_some() && s.pending.is_none());
+    match &s.confirmed {
+        Some((k, i)) => assert!(*i == id && same_key(k, &c, 32)),
+        None => assert!(false),
+    }
+    std::mem::forget(s);
+    witness!();
+}
